@@ -1040,6 +1040,48 @@ fn ctap_prf(p: &CtapPrf, creds: &[ModelCred], rp: &str, out: &mut Vec<(Vec<u8>, 
     }
 }
 
+
+/// Request members that must not influence the outcome, drawn from a seed.
+struct Misc {
+    timeout: Option<u32>,
+    hints: Option<Vec<webauthn::PublicKeyCredentialHints>>,
+    attestation: webauthn::AttestationConveyancePreference,
+    formats: Option<Vec<webauthn::AttestationStatementFormatIdentifiers>>,
+    attachment: Option<webauthn::AuthenticatorAttachment>,
+}
+
+fn misc_of(seed: u64) -> Misc {
+    use webauthn::{AttestationConveyancePreference as A, AttestationStatementFormatIdentifiers as F, AuthenticatorAttachment as At, PublicKeyCredentialHints as H};
+    if seed == 0 {
+        return Misc { timeout: None, hints: None, attestation: A::None, formats: None, attachment: None };
+    }
+    let mut r = Rng::new(seed);
+    Misc {
+        timeout: match r.below(4) {
+            0 => None,
+            1 => Some(0),
+            2 => Some(u32::MAX),
+            _ => Some(r.below(600_000) as u32),
+        },
+        hints: match r.below(3) {
+            0 => None,
+            1 => Some(vec![]),
+            _ => Some(vec![*r.pick(&[H::SecurityKey, H::ClientDevice, H::Hybrid]), H::Hybrid]),
+        },
+        attestation: *r.pick(&[A::None, A::Indirect, A::Direct, A::Enterprise]),
+        formats: match r.below(3) {
+            0 => None,
+            1 => Some(vec![F::None]),
+            _ => Some(vec![*r.pick(&[F::Packed, F::Tpm, F::AndroidKey, F::AndroidSafetynet, F::FidoU2f, F::Apple]), F::None]),
+        },
+        attachment: match r.below(3) {
+            0 => None,
+            1 => Some(At::Platform),
+            _ => Some(At::CrossPlatform),
+        },
+    }
+}
+
 fn uv_req(n: u8) -> webauthn::UserVerificationRequirement {
     match n {
         0 => webauthn::UserVerificationRequirement::Required,
@@ -1122,6 +1164,7 @@ async fn run_op(
                 };
                 e.zip_contents()
             };
+            let misc = misc_of(s.misc);
             let request = webauthn::CredentialCreationOptions {
                 public_key: webauthn::PublicKeyCredentialCreationOptions {
                     rp: webauthn::PublicKeyCredentialRpEntity {
@@ -1135,11 +1178,11 @@ async fn run_op(
                     },
                     challenge: s.challenge.clone().into(),
                     pub_key_cred_params: alg_params(&s.algs),
-                    timeout: None,
+                    timeout: misc.timeout,
                     exclude_credentials: exclude.as_ref().map(|l| descriptors(l, &op.unknown_type, &op.list_transports)),
                     authenticator_selection: s.sel.as_ref().map(|sel| {
                         webauthn::AuthenticatorSelectionCriteria {
-                            authenticator_attachment: None,
+                            authenticator_attachment: misc.attachment,
                             resident_key: sel.rk.map(|r| match r {
                                 0 => webauthn::ResidentKeyRequirement::Discouraged,
                                 1 => webauthn::ResidentKeyRequirement::Preferred,
@@ -1149,9 +1192,9 @@ async fn run_op(
                             user_verification: uv_req(sel.uv),
                         }
                     }),
-                    hints: None,
-                    attestation: Default::default(),
-                    attestation_formats: None,
+                    hints: misc.hints,
+                    attestation: misc.attestation,
+                    attestation_formats: misc.formats,
                     extensions,
                 },
             };
@@ -1218,16 +1261,17 @@ async fn run_op(
                     .map(|p| build_prf(p, &creds, rp.effective, &mut resolved.by_cred_hashed)),
             }
             .zip_contents();
+            let misc = misc_of(s.misc);
             let request = webauthn::CredentialRequestOptions {
                 public_key: webauthn::PublicKeyCredentialRequestOptions {
                     challenge: s.challenge.clone().into(),
-                    timeout: None,
+                    timeout: misc.timeout,
                     rp_id: rp.rp_id.map(str::to_owned),
                     allow_credentials: allow.as_ref().map(|l| descriptors(l, &op.unknown_type, &op.list_transports)),
                     user_verification: uv_req(s.uv),
-                    hints: None,
-                    attestation: Default::default(),
-                    attestation_formats: None,
+                    hints: misc.hints,
+                    attestation: misc.attestation,
+                    attestation_formats: misc.formats,
                     extensions,
                 },
             };
